@@ -60,6 +60,7 @@ def check(program: Program, run: Run) -> None:
     run.rule("R1 quote-wrap requires escape: inner text of every '...'-span is escaped(q), quote-free by kind, or a rendered slot")
     run.rule("R2 dialect escape coverage: every value position of a dialect builder constructs its wrapper via self._wrapper_cls (or the base wrapper consults ctx.dialect)")
     run.rule("R3 value wrappers emit one literal fragment on every path")
+    run.rule("R7 every str.format() template is constant text: rendered SQL (which may contain a value's braces) is never used as a format template")
     run.rule("R6 exhaustive table (value kind x wrapper class) on typed symbolic values: each quoted kind is one quoted literal with the quote doubled, a wrapper that doubles backslashes for any kind does so for every kind that can contain one, and a str-mixin Enum member is never formatted as the member")
     run.rule("R5 exact str: text placed in the literal under isinstance(value, str) is a call result (replace/isoformat/str) or Enum members were excluded first")
     run.rule("R4 escape once: no .replace(c, c*2) is applied to text that an identical .replace already went through on the same render path")
@@ -181,7 +182,7 @@ def check(program: Program, run: Run) -> None:
                     continue
                 passes = any(k.arg == "wrapper_cls" for k in n.keywords) or len(n.args) > 1
                 arg = ast.unparse(n.args[0])
-                if arg in ("limit", "offset", "slice.start", "slice.stop", "term", "field") and name in ("limit", "offset", "slice", "fetch_next", "groupby", "orderby"):
+                if name in ("limit", "offset", "slice", "fetch_next", "groupby", "orderby"):
                     continue   # integers / order keys: strings become Fields before this point, no string literal is produced
                 npos += 1
                 ok = passes or base_consults
@@ -446,5 +447,49 @@ def check(program: Program, run: Run) -> None:
                 run.finding(f"C05/{code}:{c.qualname}:{kname}", f"{c.qualname}.get_value_sql: a value of kind {kname} {msg} (rendering: {txt[:100]})",
                             where=c.resolve("get_value_sql").loc(), rule="R6")
     run.analysed["value_kind_cells"] = n6
+
+    # ---- R7: rendered text is data.  `<rendered sql>.format(...)` / `(sql + " AS {alias}").format(...)` re-reads it as a
+    # template: braces inside an inlined literal (JSON text, '{0}', '{{x}}') are taken for replacement fields -- they are
+    # collapsed, substituted, or raise.  Every str.format() template must be constant text.
+    tsites = {}
+
+    def tw(x, d=0):
+        if d > 80 or isinstance(x, (str, int, float, bool, type(None))):
+            return
+        if isinstance(x, (tuple, list, frozenset)):
+            for i_ in x:
+                tw(i_, d + 1)
+            return
+        if isinstance(x, _Op) and x.name == "format-of-nonconst":
+            dyn = []
+
+            def dw(y, dd=0):
+                if dd > 40 or isinstance(y, (str, int, float, bool, type(None))) or dyn:
+                    return
+                if isinstance(y, (Hole, SlotP)):
+                    dyn.append(y)
+                    return
+                if isinstance(y, (tuple, list)):
+                    for j_ in y:
+                        dw(j_, dd + 1)
+                elif dataclasses.is_dataclass(y):
+                    for fl_ in dataclasses.fields(y):
+                        if fl_.name not in ("src", "cond", "ctx"):
+                            dw(getattr(y, fl_.name), dd + 1)
+            dw(x.inner)
+            if dyn or not x.inner or not x.inner[0].parts:
+                fn = x.src[0] if x.src else "?"
+                tsites.setdefault(fn, (x.src, show(x.inner[0], -6)[:80] if x.inner else "?"))
+        if dataclasses.is_dataclass(x):
+            for fld in dataclasses.fields(x):
+                if fld.name not in ("src", "cond", "ctx", "recv"):
+                    tw(getattr(x, fld.name), d + 1)
+    for f_, v_ in fsk.items():
+        tw(v_)
+    run.ob("C05/R7 every str.format() template is constant text (rendered text is never re-read as a template)", f"{len(fsk)} renderers", not tsites,
+           detail="; ".join(sorted(tsites))[:200])
+    for fn, (src_, txt_) in sorted(tsites.items()):
+        run.finding(f"C05/template-from-rendered-text:{fn}", f"{fn} calls .format() on text that contains already rendered SQL (`{txt_}`): braces inside an inlined value are read as replacement "
+                    "fields, so the literal decodes to a different value or rendering raises", where=f"{src_[2]}:{src_[1]}" if src_ else "", rule="R7")
     if n6 < 40:
         raise AnalysisError(f"instance count below floor: value-kind cells {n6}")
